@@ -132,6 +132,40 @@ func c09Positions() []c09Pos {
 		{"inline-response-schema.description", func(d J, s string) {
 			at(d, "paths", "/things/{id}", "post", "responses", "default", "schema")["description"] = s
 		}},
+		// URL-valued and remaining free-text fields at every level (round 4: a url is free text as well)
+		{"tag.externalDocs.url", func(d J, s string) { at(d["tags"].([]interface{})[0].(J), "externalDocs")["url"] = s }},
+		{"operation.externalDocs.url", func(d J, s string) { at(d, "paths", "/things/{id}", "post", "externalDocs")["url"] = s }},
+		{"schema.externalDocs.url", func(d J, s string) { at(d, "definitions", "Thing", "externalDocs")["url"] = s }},
+		{"parameter.pattern(header)", func(d J, s string) { param(2)(d)["pattern"] = s; delete(param(2)(d), "default") }},
+		{"parameter.pattern(formData)", func(d J, s string) {
+			p := at(d, "paths", "/form", "post")["parameters"].([]interface{})[0].(J)
+			p["pattern"] = s
+			delete(p, "default")
+		}},
+		{"header.pattern", func(d J, s string) {
+			h := at(d, "paths", "/things/{id}", "post", "responses", "200", "headers", "X-Out")
+			h["pattern"] = s
+			delete(h, "default")
+		}},
+		{"items.default(query array)", func(d J, s string) {
+			p := param(1)(d)
+			for _, k := range []string{"default", "pattern", "enum", "minLength", "maxLength", "format"} {
+				delete(p, k)
+			}
+			p["type"] = "array"
+			p["items"] = J{"type": "string", "default": s}
+		}},
+		{"items.pattern(query array)", func(d J, s string) {
+			p := param(1)(d)
+			for _, k := range []string{"default", "pattern", "enum", "minLength", "maxLength", "format"} {
+				delete(p, k)
+			}
+			p["type"] = "array"
+			p["items"] = J{"type": "string", "pattern": s}
+		}},
+		{"response.examples", func(d J, s string) {
+			at(d, "paths", "/things/{id}", "post", "responses", "200")["examples"] = J{"application/json": J{"name": s}, "text/plain": s}
+		}},
 		{"securityDefinition.description", func(d J, s string) { at(d, "securityDefinitions", "key")["description"] = s }},
 		{"securityDefinition.description(oauth2)", func(d J, s string) { at(d, "securityDefinitions", "oauth")["description"] = s }},
 		{"scope.description", func(d J, s string) { at(d, "securityDefinitions", "oauth", "scopes")["read"] = s }},
@@ -241,7 +275,7 @@ func RunC09(tier, replay string) int {
 	if tier == "thorough" {
 		targets = []string{"server", "client", "cli", "model", "model+tags"}
 	}
-	r.Rule = "carrier spec with neutral text in 45 free-text positions (info, contact, license, host, basePath, externalDocs at 4 levels, tag, operation, parameter descriptions/defaults/patterns per location, response and header descriptions/defaults, schema/property titles, descriptions, defaults, examples, patterns, security definition and scope descriptions); one of 27 hostile strings (comment terminators, quotes, backticks, backslashes, newlines/CR, code-injection payloads, template and format verbs, U+2028, BOM, NUL) placed in ONE position at a time (position pairs in the thorough tier) x targets; generated by the real command with --name; if generation succeeds every file must parse and its AST with comments, string/char literals and struct tags erased must equal the neutral rendering's (same files, same declarations, imports, statements); the neutral rendering itself must build. distinct = (position, hostile string, target); non-trivial = generation succeeded and ASTs were compared"
+	r.Rule = "carrier spec with neutral text in 54 free-text positions (info, contact, license, host, basePath, externalDocs descriptions and urls at 4 levels, tag, operation, parameter descriptions/defaults/patterns per location, response and header descriptions/defaults, schema/property titles, descriptions, defaults, examples, patterns, security definition and scope descriptions); one of 27 hostile strings (comment terminators, quotes, backticks, backslashes, newlines/CR, code-injection payloads, template and format verbs, U+2028, BOM, NUL) placed in ONE position at a time (position pairs in the thorough tier) x targets; generated by the real command with --name; if generation succeeds every file must parse and its AST with comments, string/char literals and struct tags erased must equal the neutral rendering's (same files, same declarations, imports, statements); the neutral rendering itself must build. distinct = (position, hostile string, target); non-trivial = generation succeeded and ASTs were compared"
 	r.Assume = []string{"go/parser and go/printer are trusted", "equal erased ASTs + a building neutral rendering imply a building hostile rendering (only literal contents differ)", "--skip-validation is passed so that hostile text in url/email/pattern positions reaches the templates; a generation error is an accepted outcome"}
 	s := NewScratch("C09")
 	defer s.Close()
